@@ -46,6 +46,11 @@ def _eval_cond(c, env):
         rv = cval(r) if cval(r) is not None else env.get(pp(r))
         if lv is None or rv is None:
             return None
+        if isinstance(lv, tuple) or isinstance(rv, tuple):
+            # the address of a global object: only (in)equality is meaningful, and it is never the null pointer
+            if c["op"] not in ("==", "!="):
+                return None
+            return (lv == rv) == (c["op"] == "==")
         return {"==": lv == rv, "!=": lv != rv, "<": lv < rv, "<=": lv <= rv, ">": lv > rv, ">=": lv >= rv}[c["op"]]
     k = pp(c)
     if k in env:
@@ -66,7 +71,20 @@ def _writes_key(f, e, keys):
     return hit
 
 
-def reach_under(f, fixed, start=None, arm=None):
+def _const_under(e, env):
+    """Value of expression e under env: an int, ('&', name) for the address of a global object, or None."""
+    e = sk(e)
+    if e is None:
+        return None
+    v = cval(e)
+    if v is not None:
+        return v
+    if e.get("k") == "Un" and e["op"] == "&" and sk(e["a"][0]).get("k") == "Ref" and sk(e["a"][0])["ref"].get("rk") == "global":
+        return ("&", sk(e["a"][0])["ref"]["name"])
+    return env.get(pp(e))
+
+
+def reach_under(f, fixed, start=None, arm=None, envs=None):
     """(blocks, callee names, call nodes) reachable from the entry when the
     discriminants in `fixed` hold their values until they are written.
     `arm` = {key: value}: the discriminant takes its value at its first write
@@ -76,6 +94,7 @@ def reach_under(f, fixed, start=None, arm=None):
     blocks = set()
     callees = set()
     calls = []
+    seen_calls = set()
     arm = dict(arm or {})
     PEND = "\0pending:"
     init = dict(fixed)
@@ -98,13 +117,36 @@ def reach_under(f, fixed, start=None, arm=None):
                         ce = sk(x.get("callee"))
                         nm = "(*%s)" % pp(ce) if ce is not None else "(*?)"
                     callees.add(nm)
-                    calls.append((b, x))
+                    if (b.id, x.get("n")) not in seen_calls:
+                        seen_calls.add((b.id, x.get("n")))
+                        calls.append((b, x))
+                    if envs is not None:
+                        envs.setdefault(x.get("n"), []).append(dict(env))
+            # a local that receives a known value carries it on (a helper's parameter bound to the discriminant, a flag
+            # or a pointer to a global table set in one arm of a switch)
+            newval = None
+            x0 = sk(e)
+            if envs is not None and x0.get("k") == "Bin" and x0["op"] == "=":
+                envs.setdefault(x0.get("n"), []).append(dict(env))
+            if x0.get("k") == "Bin" and x0["op"] == "=" and sk(x0["a"][0]).get("k") == "Ref" and \
+                    sk(x0["a"][0])["ref"].get("rk") in ("local", "param"):
+                v0 = _const_under(x0["a"][1], env)
+                if v0 is not None:
+                    newval = (pp(sk(x0["a"][0])), v0)
+            elif x0.get("k") == "Decl":
+                for d0 in x0["decls"]:
+                    if d0.get("init") is not None:
+                        v0 = _const_under(d0["init"], env)
+                        if v0 is not None:
+                            newval = (d0["ref"]["name"], v0)
             for k in _writes_key(f, e, set(env) | set(arm)):
                 if PEND + k in env:
                     del env[PEND + k]
                     env[k] = arm[k]
                 else:
                     env.pop(k, None)
+            if newval is not None and not newval[0].startswith(PEND):
+                env[newval[0]] = newval[1]
         if b.noreturn:
             continue
         envt2 = tuple(sorted(env.items()))
